@@ -312,10 +312,51 @@ def _cfg(spec, consts, invs=(), view=False):
             + "".join("INVARIANT %s\n" % i for i in invs) + ("VIEW View\n" if view else ""))
 
 
+_TLC = {}
+
+
+def _tlc(chk: Check, module, cfg_text, tag, workers):
+    import os
+    path = os.path.join(chk.scratch, "%s-%s.cfg" % (module, tag))
+    with open(path, "w") as f:
+        f.write(cfg_text)
+    return common.run_tlc(os.path.join(common.SPECS, module + ".tla"), path, workers=workers, scratch=chk.scratch, heap="6g")
+
+
+def _algo_cfg(consts):
+    return ("SPECIFICATION ASpec\nCONSTANTS %s FirstMatch = FALSE SwappedIndex = FALSE DedupeAdd = FALSE IterRemove = FALSE "
+            "ReAddOnConsume = FALSE\nCONSTRAINT Bound\n" % (CONSTS % consts)
+            + "".join("INVARIANT %s\n" % i for i in ("AlgoResolves", "AlgoTemps", "AlgoByName", "AlgoProxyStable", "AlgoUpstream")))
+
+
+def _prefetch(chk: Check, plan):
+    """All TLC runs of the tier are independent of each other and of the implementation: start them together
+    (every configuration otherwise pays two JVM starts in sequence)."""
+    import concurrent.futures as cf
+    jobs = []
+    for item in plan:
+        if item[0] == "b1":
+            _, consts, label, _cap = item
+            jobs.append((("mc", label), "Caps_MC", _cfg("Spec", consts, INVS), 4))
+            jobs.append((("mbt", label), "Caps_MBT", _cfg("MSpec", consts, view=True), 1))
+        else:
+            _, consts, label = item
+            jobs.append((("algo", label), "Caps_Algo", _algo_cfg(consts), 4))
+    with cf.ThreadPoolExecutor(max_workers=min(len(jobs), max(2, common.NCPU // 2))) as ex:
+        futs = {k: ex.submit(_tlc, chk, mod, cfg, "%s-%s" % k, w) for k, mod, cfg, w in jobs}
+        for k, f in futs.items():
+            _TLC[k] = f.result()
+
+
 def _b1(chk: Check, consts, label, pair_cap):
     global _G, _NR, _IDS
-    common.model_check(chk, "Caps_MC", _cfg("Spec", consts, INVS), "Caps " + label)
-    recs = common.export_records(chk, "Caps_MBT", _cfg("MSpec", consts, view=True), "Caps_MBT " + label)
+    chk.require_model_ok(_TLC.pop(("mc", label)), "Caps " + label)
+    res = _TLC.pop(("mbt", label))
+    if not res.ok:
+        raise common.MachineryError("Caps_MBT %s export failed:\n%s" % (label, res.out[-3000:]))
+    chk.add_tlc(res, "Caps_MBT %s (export)" % label)
+    recs = res.printed()
+    del res
     obs = {skey(r["st"]): r["obs"] for r in recs if "st" in r}
     edges = []
     for r in recs:
@@ -370,9 +411,7 @@ def _algo(chk: Check, consts, label):
     (the pinned tree's resolve_cap loop / register_proxy_cap indices) TLC produces the 5- and 3-state
     counterexamples of the two genuine defects, with DedupeAdd = TRUE (update_caps skipping a pair the name
     already has) the 7-state one of the grant history a, c, a; the real code is never judged against this layer."""
-    cfg = ("SPECIFICATION ASpec\nCONSTANTS %s FirstMatch = FALSE SwappedIndex = FALSE DedupeAdd = FALSE IterRemove = FALSE ReAddOnConsume = FALSE\nCONSTRAINT Bound\n" % (CONSTS % consts)
-           + "".join("INVARIANT %s\n" % i for i in ("AlgoResolves", "AlgoTemps", "AlgoByName", "AlgoProxyStable", "AlgoUpstream")))
-    common.model_check(chk, "Caps_Algo", cfg, "Caps_Algo " + label)
+    chk.require_model_ok(_TLC.pop(("algo", label)), "Caps_Algo " + label)
 
 
 def run(chk: Check):
@@ -389,28 +428,35 @@ def run(chk: Check):
         "URLs the proxy mints itself (wrapper / proxy-only) are on its own host names and therefore never prefix-related to "
         "simulator URLs; one-shot URLs registered through register_cap are (above and below granted URLs)",
     ]
+    plan = []
     if chk.tier == "quick":
-        _b1(chk, dict(NR=2, MaxSeed=2, MaxTemp=2, Grants="1,2,3,4,5,6,7,9", PO=P1, Wants="1,2", TN=T1, Depth=5), "2r-d5", 6000)
+        plan.append(("b1", dict(NR=2, MaxSeed=2, MaxTemp=2, Grants="1,2,3,4,5,6,7,9", PO=P1, Wants="1,2", TN=T1, Depth=5), "2r-d5", 6000))
         # two sessions, asset URL shared across sessions (no one-shot caps)
-        _b1(chk, dict(NR=3, MaxSeed=2, MaxTemp=0, Grants="1,5,6", PO=P1, Wants="1,2", TN=T1, Depth=5), "3r-d5-small", 2000)
+        plan.append(("b1", dict(NR=3, MaxSeed=2, MaxTemp=0, Grants="1,5,6", PO=P1, Wants="1,2", TN=T1, Depth=5), "3r-d5-small", 2000))
         # long grant histories of ONE name in one region: re-grants of an earlier URL (a c a, a c a c, a ax a ..)
-        _b1(chk, dict(NR=1, MaxSeed=4, MaxTemp=0, Grants="1,2,8", PO=P1, Wants="1,2", TN=T1, Depth=9), "1r-regrant-d9", 1500)
+        plan.append(("b1", dict(NR=1, MaxSeed=4, MaxTemp=0, Grants="1,2,8", PO=P1, Wants="1,2", TN=T1, Depth=9), "1r-regrant-d9", 1500))
         # two proxy-only caps, seed requests naming them in every order / adjacency
-        _b1(chk, dict(NR=1, MaxSeed=2, MaxTemp=0, Grants="1,5", PO=P2, Wants="1,2,3,4,5,6,7", TN=T1, Depth=7), "1r-proxy2-d7", 1000)
+        plan.append(("b1", dict(NR=1, MaxSeed=2, MaxTemp=0, Grants="1,5", PO=P2, Wants="1,2,3,4,5,6,7", TN=T1, Depth=7), "1r-proxy2-d7", 1000))
         # one-shot URLs above / below granted URLs, registered before and after the grant, consumed, re-registered
-        _b1(chk, dict(NR=1, MaxSeed=2, MaxTemp=2, Grants="1,3,9", PO="", Wants="1", TN=T1, Depth=8), "1r-temps-d8", 1000)
+        plan.append(("b1", dict(NR=1, MaxSeed=2, MaxTemp=2, Grants="1,3,9", PO="", Wants="1", TN=T1, Depth=8), "1r-temps-d8", 1000))
         # several live entries under ONE name (ordinary grant + up to three one-shot caps), used up in any order
-        _b1(chk, dict(NR=1, MaxSeed=1, MaxTemp=3, Grants="4", PO="", Wants="1", TN=T2, Depth=8), "1r-temps3-d8", 1500)
-        _algo(chk, dict(NR=1, MaxSeed=2, MaxTemp=1, Grants="1,3,9", PO=P2, Wants="1,3,5", TN=T1, Depth=6), "1r-d6-small")
+        plan.append(("b1", dict(NR=1, MaxSeed=1, MaxTemp=3, Grants="4", PO="", Wants="1", TN=T2, Depth=8), "1r-temps3-d8", 1500))
+        plan.append(("algo", dict(NR=1, MaxSeed=2, MaxTemp=1, Grants="1,3,9", PO=P2, Wants="1,3,5", TN=T1, Depth=6), "1r-d6-small"))
     else:
-        _b1(chk, dict(NR=3, MaxSeed=2, MaxTemp=1, Grants="1,2,3,4,5,6,7,9", PO=P1, Wants="1,2", TN=T1, Depth=5), "3r-d5", 20000)
-        _b1(chk, dict(NR=2, MaxSeed=3, MaxTemp=2, Grants="1,2,3,4,5,6,7,8,9", PO=P1, Wants="1,2", TN=T1, Depth=6), "2r-d6", 30000)
-        _b1(chk, dict(NR=1, MaxSeed=5, MaxTemp=0, Grants="1,2,3,8", PO=P1, Wants="1,2", TN=T1, Depth=11), "1r-regrant-d11", 10000)
-        _b1(chk, dict(NR=2, MaxSeed=2, MaxTemp=0, Grants="1,5", PO=P2, Wants="1,2,3,4,5,6,7", TN=T1, Depth=7), "2r-proxy2-d7", 10000)
-        _b1(chk, dict(NR=1, MaxSeed=3, MaxTemp=2, Grants="1,2,3,9", PO=P1, Wants="1,2", TN=T1, Depth=9), "1r-temps-d9", 10000)
-        _b1(chk, dict(NR=1, MaxSeed=2, MaxTemp=3, Grants="4,9", PO="", Wants="1", TN=T2, Depth=9), "1r-temps3-d9", 10000)
-        _algo(chk, dict(NR=1, MaxSeed=1, MaxTemp=3, Grants="4", PO="", Wants="1", TN=T2, Depth=8), "1r-temps3-d8")
-        _algo(chk, dict(NR=2, MaxSeed=2, MaxTemp=1, Grants="1,2,3,4,5,6,7,8,9", PO=P1, Wants="1,2", TN=T1, Depth=5), "2r-d5")
-        _algo(chk, dict(NR=1, MaxSeed=4, MaxTemp=0, Grants="1,2,8", PO=P1, Wants="1,2", TN=T1, Depth=9), "1r-regrant-d9")
-        _algo(chk, dict(NR=1, MaxSeed=2, MaxTemp=1, Grants="1,3,9", PO=P2, Wants="1,2,3,4,5,6,7", TN=T1, Depth=7), "1r-proxy2-d7")
+        plan.append(("b1", dict(NR=3, MaxSeed=2, MaxTemp=1, Grants="1,2,3,4,5,6,7,9", PO=P1, Wants="1,2", TN=T1, Depth=5), "3r-d5", 20000))
+        plan.append(("b1", dict(NR=2, MaxSeed=3, MaxTemp=2, Grants="1,2,3,4,5,6,7,8,9", PO=P1, Wants="1,2", TN=T1, Depth=6), "2r-d6", 30000))
+        plan.append(("b1", dict(NR=1, MaxSeed=5, MaxTemp=0, Grants="1,2,3,8", PO=P1, Wants="1,2", TN=T1, Depth=11), "1r-regrant-d11", 10000))
+        plan.append(("b1", dict(NR=2, MaxSeed=2, MaxTemp=0, Grants="1,5", PO=P2, Wants="1,2,3,4,5,6,7", TN=T1, Depth=7), "2r-proxy2-d7", 10000))
+        plan.append(("b1", dict(NR=1, MaxSeed=3, MaxTemp=2, Grants="1,2,3,9", PO=P1, Wants="1,2", TN=T1, Depth=9), "1r-temps-d9", 10000))
+        plan.append(("b1", dict(NR=1, MaxSeed=2, MaxTemp=3, Grants="4,9", PO="", Wants="1", TN=T2, Depth=9), "1r-temps3-d9", 10000))
+        plan.append(("algo", dict(NR=1, MaxSeed=1, MaxTemp=3, Grants="4", PO="", Wants="1", TN=T2, Depth=8), "1r-temps3-d8"))
+        plan.append(("algo", dict(NR=2, MaxSeed=2, MaxTemp=1, Grants="1,2,3,4,5,6,7,8,9", PO=P1, Wants="1,2", TN=T1, Depth=5), "2r-d5"))
+        plan.append(("algo", dict(NR=1, MaxSeed=4, MaxTemp=0, Grants="1,2,8", PO=P1, Wants="1,2", TN=T1, Depth=9), "1r-regrant-d9"))
+        plan.append(("algo", dict(NR=1, MaxSeed=2, MaxTemp=1, Grants="1,3,9", PO=P2, Wants="1,2,3,4,5,6,7", TN=T1, Depth=7), "1r-proxy2-d7"))
+    _prefetch(chk, plan)
+    for item in plan:
+        if item[0] == "b1":
+            _b1(chk, *item[1:])
+        else:
+            _algo(chk, *item[1:])
     chk.cov["exhaustive"] = True
